@@ -9,11 +9,32 @@ SCENARIOS = [
     (r'^levmar\.set_params\.(seq|par)\.(noStale|coherent)$', [['stale_after_failed_set_params']]),
     (r'^levmar\.set_params\.(seq|par)\.pre$', [['nonfinite_phi', 'inf'], ['nonfinite_phi', 'nan']]),
     (r'^stats\.try_calculate\.(arith|pre|ok|underdetermined.*)$', [['underdetermined', '3', '2', '2'], ['underdetermined', '4', '2', '2'], ['stats_sweep']]),
+    # (SWEEP_FOR below maps degraded functions to these sweeps as their bounded stand-in)
     # algebraic obligations: a sweep of concrete problems against an independent oracle (a replay aid only: the failed
     # obligation is the violation; the sweep supplies a concrete failing input when one of its configurations shows it)
     (r'^(levmar\.(set_params|jacobian|residuals|builder|problem|copy_matrix_to_column)|util\.|cor\.c0[1-7]|cor\.c10|kani\.(copy_matrix|to_vector))', [['algebra_sweep']]),
     (r'^(stats\.|cor\.c1[234]|levmar\.solver\.fit_with_statistics)', [['stats_sweep'], ['underdetermined', '5', '3', '2']]),
 ]
+
+
+# bounded stand-in for functions that could not be verified (degraded): function-id prefix -> sweep scenarios
+SWEEP_FOR = [
+    (('stats.', 'levmar.solver.fit_with_statistics'), [['stats_sweep'], ['nonfinite_derivative_stats']]),
+    (('levmar.', 'util.'), [['algebra_sweep']]),
+    (('model.', 'mbuilder.', 'fbuilder.', 'detail.', 'mbf.'), [['model_sweep']]),
+]
+
+
+def sweeps_for(fn_ids):
+    out = []
+    for fid in fn_ids:
+        for prefixes, scen in SWEEP_FOR:
+            if fid.startswith(prefixes):
+                for sc in scen:
+                    if sc not in out:
+                        out.append(sc)
+                break
+    return out
 
 
 def build_driver(repo, scratch):
@@ -49,15 +70,30 @@ def run_scenarios(repo, scen):
         for argv in scen:
             try:
                 p = subprocess.run([exe] + argv, capture_output=True, text=True, timeout=60)
+                findings = []
+                for l in p.stdout.splitlines():
+                    m = re.match(r'^REPRODUCED(?: \[([^\]]*)\])?: (.*)$', l)
+                    if m:
+                        findings.append(dict(tags=(m.group(1) or '').split(), text=m.group(2)))
                 if p.returncode != 0:
                     outcome, detail, ok = 'panicked / aborted (exit %d)' % p.returncode, (p.stderr or '')[-600:], True
-                elif 'REPRODUCED:' in p.stdout and 'NOT-REPRODUCED' not in p.stdout:
-                    outcome, detail, ok = 'violation observed', p.stdout.strip()[-600:], True
+                    first = next((l for l in (p.stderr or '').splitlines() if 'panicked at' in l), (p.stderr or '').strip()[:200])
+                    if '/driver/src/main.rs' in first:
+                        # an unwrap() of the driver itself: the library returned an unexpected Err / None; no property is named
+                        findings.append(dict(tags=[], text='the driver could not set the scenario up (' + first.strip()[:200] + ')'))
+                        ok = False
+                        outcome = 'scenario could not be set up'
+                    else:
+                        tags = ['C08'] + (['C17'] if argv and argv[0] == 'model_sweep' else [])
+                        findings.append(dict(tags=tags, text='the library panicked: ' + first.strip()[:300]))
+                elif findings:
+                    outcome, detail, ok = 'violation observed', p.stdout.strip()[-1500:], True
                 else:
                     outcome, detail, ok = 'not reproduced', p.stdout.strip()[-600:], False
             except subprocess.TimeoutExpired:
                 outcome, detail, ok = 'did not return within 60 s (killed by the watchdog)', '', True
-            out.append(dict(scenario=' '.join(argv), profile='debug', outcome=outcome, detail=detail, reproduced=ok))
+                findings = [dict(tags=['C08'], text='the scenario did not return within 60 s')]
+            out.append(dict(scenario=' '.join(argv), profile='debug', outcome=outcome, detail=detail, reproduced=ok, findings=findings))
             rep = rep or ok
         return out, rep
     finally:
